@@ -1,39 +1,129 @@
 # C19 — `-E` output re-lexes to the token sequence that was printed (E1: cbmc over main.c print_tokens
-# + the real tokenize.c)
+# + the real scanners of tokenize.c; see harness/c19/relex.c for why tokenize() itself is modelled)
 import os, re
 import vf, e1
+import c17hist
 
-KINDS = ["ident", "num", "punct", "str"]
+KINDS = ["ident", "num", "punct"]
+HARNESS = os.path.join(vf.VERIF, "harness")
+
+
+def repo_units():
+    return [os.path.join(vf.REPO, f) for f in sorted(os.listdir(vf.REPO))
+            if f.endswith(".c") and f not in ("main.c", "tokenize.c")]
+
+
+def validate_oracle(chk):
+    """Native validation of the reference lexer model_lex against the real tokenize() (allowed use of
+    concrete runs: validating an oracle).  A disagreement makes the check exit 2."""
+    d = vf.subdir("c19oracle")
+    src = os.path.join(d, "val.c")
+    with open(src, "w") as fh:
+        fh.write('#define NATIVE 1\n#include "%s"\nint main(void) { validate_oracle(); return 0; }\n'
+                 % os.path.join(HARNESS, "c19", "relex.c"))
+    exe = os.path.join(d, "val.exe")
+    rc, o, e, _ = vf.run(["gcc", "-w", "-O1", "-I", vf.REPO, "-I", HARNESS, "-o", exe, src,
+                          os.path.join(HARNESS, "c19", "lexk.c")] + repo_units(), timeout=300)
+    if rc != 0:
+        chk.add("oracle/model-lex-vs-tokenize", "inconclusive", "oracle validation did not build: " + e[-300:])
+        return False
+    rc, o, e, secs = vf.run([exe], timeout=300)
+    m = re.search(r"ORACLE-OK (\d+) buffers", o)
+    if rc == 0 and m:
+        chk.extra["validated"] = chk.extra.get("validated", 0) + int(m.group(1))
+        chk.extra["oracle_validation"] = o.strip().splitlines()[-1]
+        return True
+    chk.add("oracle/model-lex-vs-tokenize", "mismatch",
+            "reference lexer disagrees with the real tokenize(): " + (o + e)[-300:])
+    return False
+
+
+def e2e_replay(chk):
+    """A violated pair class: show the same pair end to end through `chibicc -E` (macro expansion puts B
+    directly after A) and make that script the replay file."""
+    b = None
+    for o in chk.obl:
+        if o["status"] != "violated" or not o["key"].startswith("pair/") or not o.get("replay"):
+            continue
+        try:
+            IN = c17hist.parse_inputs(open(o["replay"]).read())
+            A = bytes(IN["a"][(i,)] for i in range(IN["la"][()]))
+            B = bytes(IN["b"][(i,)] for i in range(IN["lb"][()]))
+            if any(c < 32 or c > 126 for c in A + B):
+                o["detail"] += " | (no -E script: unprintable byte in the pair)"
+                continue
+            a, bb = A.decode(), B.decode()
+            if any(c in "(),#\\" for c in a + bb):
+                prog = "#define VERIF_B %s\nVERIF_MARK %sVERIF_B\n" % (bb, a)   # works when A is not an identifier
+            else:
+                prog = "#define VERIF_F(x) x\nVERIF_MARK VERIF_F(%s)VERIF_F(%s)\n" % (a, bb)
+            b = b or vf.build_chibicc()
+            d = vf.subdir("c19e2e")
+            cpath = os.path.join(d, "p.c")
+            with open(cpath, "w") as fh:
+                fh.write(prog)
+            rc, out, err, _ = vf.run([os.path.join(b, "chibicc"), "-E", cpath], timeout=60)
+            line = [l for l in out.splitlines() if l.startswith("VERIF_MARK")]
+            fused = "VERIF_MARK " + a + bb
+            sh = ("# C19 replay: tokens `%s` and `%s` (two tokens for the compiler proper) are printed by\n"
+                  "# `chibicc -E` with nothing between them; re-lexing the printed text gives other tokens\n"
+                  "# (established with the real tokenize() by the harness replay %s).\n"
+                  "cat > \"$WORK/p.c\" <<'EOF'\n%sEOF\n"
+                  "out=$(\"$CHIBICC\" -E \"$WORK/p.c\" | grep '^VERIF_MARK')\n"
+                  "echo \"chibicc -E prints: $out\"\n"
+                  "if [ \"$out\" = '%s' ]; then echo 'VIOLATION: printed adjacently'; exit 1; fi\nexit 0\n"
+                  % (a, bb, os.path.basename(o["replay"]), prog, fused.replace("'", "'\\''")))
+            if rc == 0 and line and line[0] == fused:
+                path = chk.write_replay(o["key"] + "-chibicc-E", sh, ext=".sh")
+                o["harness_replay"] = o["replay"]
+                o["replay"] = path
+                o["detail"] = "chibicc -E prints `%s%s` for the token pair (`%s`, `%s`) | %s" % (a, bb, a, bb, o["detail"])
+            else:
+                o["detail"] += " | (chibicc -E did not print the pair adjacently for the generated program: %r)" % (line[:1],)
+        except Exception as ex:
+            o["detail"] += " | -E replay generation failed: %r" % (ex,)
 
 
 def main(tier, only=None):
     chk = vf.Check("C19", tier)
-    chk.bounds += ["every pair of token spellings A, B of 1..2 ASCII bytes each (bytes 1..127, symbolic) that the "
-                   "real tokenize() lexes as ONE token of kind identifier / pp-number / punctuator / string "
-                   "literal; B printed by the real print_tokens with at_bol=false, has_space=false"]
-    chk.assumptions += ["open_file -> stdout (cbmc stub; native replay uses the real one)",
-                        "fprintf/fputc/fputs in main.c write to a capture buffer",
-                        "tokens keep their preprocessing kinds when handed to print_tokens (convert_pp_tokens, "
-                        "which turns pp-numbers/keywords into TK_NUM/TK_KEYWORD, is not run; the pinned "
-                        "print_tokens does not look at the kind)"]
-    chk.outside += ["spellings longer than 2 bytes (character constants, 3-byte punctuators `...` `<<=` `>>=` as "
-                    "A or B, prefixed strings u8\"..\"), non-ASCII identifiers",
+    chk.bounds += ["every pair of token spellings A, B of 1..2 ASCII bytes each (bytes 1..127 except the two quote "
+                   "characters, symbolic) that lex as ONE token of kind identifier / pp-number / punctuator; B handed "
+                   "to the real print_tokens with at_bol=false, has_space=false (reachable for any pair by macro "
+                   "expansion); 9 classes by (kind of A, kind of B)"]
+    chk.assumptions += [
+        "lexing under cbmc = model_lex (tokenize()'s dispatch order for the quote-free ASCII alphabet calling the REAL "
+        "read_punct/read_ident): cbmc 6.11 does not get through symbolic execution of the real tokenize() even on a "
+        "1-byte buffer; model_lex is validated natively against the real tokenize() on every buffer of <=3 bytes and "
+        "on 4..6-byte buffers over reduced alphabets at every run, and each counterexample is confirmed natively with "
+        "the real tokenize()",
+        "decode_utf8/is_ident1/is_ident2 -> ASCII specification (asserted ASCII); error_at -> ends the path; "
+        "open_file -> stdout; fprintf/fputc/fputs in main.c write to a capture buffer",
+        "compiled with -D__NO_CTYPE: glibc's ctype macros expand to (*__ctype_b_loc())[c], which has no body in cbmc "
+        "(classification would be nondeterministic); with it cbmc's exact isdigit/isalnum/isspace/ispunct models are used",
+        "tokens keep their preprocessing kinds when handed to print_tokens (convert_pp_tokens is not run; the pinned "
+        "print_tokens does not look at the kind)"]
+    chk.outside += ["spellings longer than 2 bytes; string and character literals (so `L` + `\"x\"` -> `L\"x\"`, "
+                    "`u8` + string etc. are NOT covered); non-ASCII identifiers",
                     "idempotence of a second -E pass over whole files; assembly equality of compiling the -E output",
                     "line structure of the output (at_bol handling, blank lines)"]
-    src = [os.path.join(vf.REPO, f) for f in sorted(os.listdir(vf.REPO)) if f.endswith(".c") and f != "main.c"]
+    validate_oracle(chk)
     hs = []
+    rc = ("open_file:stub_open_file", "error_at:stub_error_at", "decode_utf8:stub_decode_utf8",
+          "is_ident1:stub_is_ident1", "is_ident2:stub_is_ident2")
     for a in KINDS:
         for b in KINDS:
             key = "pair/%s-%s" % (a, b)
             if only and not any(key.startswith(o) or o in (a, b) for o in only):
                 continue
-            hs.append(e1.H("h_%s_%s" % (a, b), key, unwind=60,
-                           unwindset=("strncmp.0:5", "strlen.0:5", "memcmp.0:5"),
-                           replace_calls=("open_file:stub_open_file",), timeout=900))
-    e1.run_set(chk, "c19/relex.c", hs, workers=int(os.environ.get("VERIF_WORKERS", "8")), extra_src=src)
+            hs.append(e1.H("h_%s_%s" % (a, b), key, unwind=8,
+                           unwindset=("read_punct.0:25", "read_ident.0:6", "strlen.0:5", "strncmp.0:5"),
+                           defines=("__NO_CTYPE",), replace_calls=rc, timeout=600, object_bits=12))
+    src = [os.path.join(HARNESS, "c19", "lexk.c")] + repo_units()
+    e1.run_set(chk, "c19/relex.c", hs, workers=int(os.environ.get("VERIF_WORKERS", "6")), extra_src=src)
+    e2e_replay(chk)
     if os.environ.get("VERIF_VERBOSE"):
         for o in chk.obl:
-            print("  %-40s %-12s %6.1fs  %s" % (o["key"], o["status"], o["secs"], o["detail"][:140]))
+            print("  %-24s %-12s %6.1fs  %s" % (o["key"], o["status"], o["secs"], o["detail"][:170]))
     return chk.finish()
 
 
